@@ -53,6 +53,9 @@ type Contract struct {
 	Line         int
 	Asserts      []Clause
 	Defines      []Clause // iface: definitional postconditions (assumed at calls, not checked on implementers)
+	Allocates    *Clause  // upper bound on the ghost byte counter growth (checked for this function, assumed at its call sites)
+	AllocPanic   *Clause  // bound on the growth when the function exits by a panic (evaluated in the pre-state)
+	AllocAssumed bool     // the bound is assumed only (callee bodies whose allocation is not modelled)
 	RacEnsures   []Clause // run-time-only postconditions (bounded search / replay); never counted as proved
 	PanicInv     []Clause // recover scope: holds whenever a panic reaches the deferred closure (assumed; see DESIGN)
 	ResetFirst   []Clause // fields that must be overwritten before anything else happens
@@ -70,7 +73,7 @@ type Contract struct {
 func (c *Contract) Key() string { return c.Pkg + "." + c.Func }
 
 var clauseKW = map[string]bool{
-	"func": true, "iface": true, "type": true, "lemma": true, "predicate": true, "axiom": true, "panic_invariant": true, "rac_ensures": true, "reset_first": true, "property": true, "requires": true, "ensures": true,
+	"func": true, "iface": true, "type": true, "lemma": true, "predicate": true, "axiom": true, "panic_invariant": true, "rac_ensures": true, "allocates": true, "allocates_on_panic": true, "allocates_assumed": true, "reset_first": true, "property": true, "requires": true, "ensures": true,
 	"panics_if": true, "panics_only_if": true, "panics_iff": true, "maypanic": true, "modifies": true,
 	"let": true, "loop": true, "invariant": true, "decreases": true, "inline": true, "trusted": true,
 	"recover": true, "bounded_view": true, "end": true, "defines": true, "view": true, "split": true, "establishes": true, "owns": true,
@@ -284,6 +287,13 @@ func parseContractText(text, path, pkg string, cs *ContractSet) error {
 				for _, v := range strings.Split(rc.text[i+4:], ",") {
 					c.SplitVals = append(c.SplitVals, strings.TrimSpace(v))
 				}
+			case "allocates_on_panic":
+				cc := cl
+				c.AllocPanic = &cc
+			case "allocates", "allocates_assumed":
+				cc := cl
+				c.Allocates = &cc
+				c.AllocAssumed = rc.kw == "allocates_assumed"
 			case "rac_ensures":
 				c.RacEnsures = append(c.RacEnsures, cl)
 			case "panic_invariant":
